@@ -740,6 +740,7 @@ func (f *transformationCallable) updateEntries(item reflect.Value) error {
 		return err
 	}
 
+	updates = jtypes.Resolve(updates)
 	if !jtypes.IsMap(updates) {
 		return newEvalError(ErrIllegalUpdate, f.updates, nil)
 	}
